@@ -60,6 +60,15 @@ def gen_base(rng, tier, index):
     call = {"ordered": index % 3 != 2, "n": n, "chunk": chunk,
             "form": rng.choice(["list", "list", "tuple", "gen", "iter", "slow", "deque", "intseq", "range_like", "array_like"]), "salt": rng.randrange(1000),
             "list_items": index % 3 == 1}
+    if index % 16 in (6, 14):
+        # array-like containers (ambiguous / false truth value) in every run: with several elements and with exactly one
+        call["form"] = "array_like"
+        if index % 16 == 14:
+            n = call["n"] = 1
+        elif n < 2:
+            n = call["n"] = 2 + index % 5
+    if call["list_items"] and index % 2 == 0:
+        chunk = call["chunk"] = 1           # the default chunk size with items that are lists
     nchunks = max(1, -(-n // chunk))
     dm = rng.choice([None, "slow_chunk", "slow_chunk", "alternate", "hash", "decreasing"])
     if dm:
